@@ -5,6 +5,7 @@ import (
 	"go/ast"
 	"go/token"
 	"go/types"
+	"sort"
 	"strconv"
 	"strings"
 )
@@ -91,7 +92,7 @@ func newEmitter(c *Ctx, fi *FuncInfo) *emitter {
 }
 
 func (e *emitter) run() []emNode {
-	ns := hoistEffects(normalize(e.block(e.fi.Decl.Body.List), true))
+	ns := hoistEffects(normalize(simplifyKnown(e.block(e.fi.Decl.Body.List), map[string]bool{}), true))
 	renumber(ns)
 	return ns
 }
@@ -120,7 +121,6 @@ func (e *emitter) stmt(s ast.Stmt) []emNode {
 		if s.Init != nil {
 			out = append(out, e.stmt(s.Init)...)
 		}
-		cond, neg := e.cond(s.Cond)
 		th := e.block(s.Body.List)
 		var el []emNode
 		switch x := s.Else.(type) {
@@ -129,21 +129,18 @@ func (e *emitter) stmt(s ast.Stmt) []emNode {
 		case *ast.IfStmt:
 			el = e.stmt(x)
 		}
-		if neg {
-			th, el = el, th
-		}
 		if len(th) == 0 && len(el) == 0 {
 			return out
 		}
-		return append(out, &emAlt{cond: cond, then: th, els: el})
+		return append(out, e.altFor(s.Cond, th, el)...)
 	case *ast.SwitchStmt:
 		var out []emNode
 		if s.Init != nil {
 			out = append(out, e.stmt(s.Init)...)
 		}
 		type cl struct {
-			cond string
-			body []emNode
+			conds []ast.Expr // disjuncts (tagless) or case values (tagged)
+			body  []emNode
 		}
 		var cls []cl
 		var def []emNode
@@ -154,19 +151,7 @@ func (e *emitter) stmt(s ast.Stmt) []emNode {
 				def = body
 				continue
 			}
-			var parts []string
-			for _, x := range cc.List {
-				if s.Tag != nil {
-					parts = append(parts, "("+e.sym(s.Tag)+"=="+e.sym(x)+")")
-				} else {
-					c, neg := e.cond(x)
-					if neg {
-						c = "!" + c
-					}
-					parts = append(parts, c)
-				}
-			}
-			cls = append(cls, cl{strings.Join(parts, "||"), body})
+			cls = append(cls, cl{cc.List, body})
 		}
 		// nested ALT chain
 		rest := def
@@ -174,7 +159,20 @@ func (e *emitter) stmt(s ast.Stmt) []emNode {
 			if len(cls[i].body) == 0 && len(rest) == 0 {
 				continue
 			}
-			rest = []emNode{&emAlt{cond: cls[i].cond, then: cls[i].body, els: rest}}
+			if s.Tag != nil {
+				var parts []string
+				for _, x := range cls[i].conds {
+					parts = append(parts, "("+e.sym(s.Tag)+"=="+e.sym(x)+")")
+				}
+				sort.Strings(parts)
+				rest = []emNode{&emAlt{cond: strings.Join(parts, "||"), then: cls[i].body, els: rest}}
+				continue
+			}
+			var or ast.Expr = cls[i].conds[0]
+			for _, x := range cls[i].conds[1:] {
+				or = &ast.BinaryExpr{X: or, Op: token.LOR, Y: x}
+			}
+			rest = e.altFor(or, cls[i].body, rest)
 		}
 		return append(out, rest...)
 	case *ast.ForStmt:
